@@ -10,6 +10,7 @@ semantics for the analysed code (evaluation order and the number of evaluations 
   C4  not not c  in a test position     -> c
   C6  'lit' == x                        -> x == 'lit'         (likewise !=)
   C7  isinstance(x, A) or isinstance(x, B) -> isinstance(x, (A, B))
+  C9  dict(k=v, ...)                    -> {"k": v, ...}      (keyword arguments only)
   C8  if a: (if b: S)                   -> if a and b: S      (no else branches)
   C5  t = X ; S(t)                      -> S(X)               when t is a single-assignment, single-use local read first in S
 
@@ -67,6 +68,14 @@ class _Canon(ast.NodeTransformer):
             if len(out) == 1:
                 return out[0]
             node.values = out
+        return node
+
+    def visit_Call(self, node: ast.Call):
+        self.generic_visit(node)
+        # C9: dict(k=v, ...) with keyword arguments only  ->  {"k": v, ...}
+        if isinstance(node.func, ast.Name) and node.func.id == "dict" and not node.args and node.keywords and all(k.arg is not None for k in node.keywords):
+            d = ast.Dict(keys=[ast.copy_location(ast.Constant(value=k.arg), k.value) for k in node.keywords], values=[k.value for k in node.keywords])
+            return ast.copy_location(d, node)
         return node
 
     def visit_UnaryOp(self, node: ast.UnaryOp):
